@@ -19,7 +19,16 @@ impl Check for C20 {
 
     fn strategy(&self, tier: Tier) -> BoxedStrategy<PairScenario> {
         let p = GenParams { max_ticks: tier.pick(150, 400), max_sends: 6, max_frags: tier.pick(4, 10), low_bandwidth: true, tail: true, modes: [3, 2, 2, 3], ..GenParams::default() };
-        scenario_strategy(&p)
+        // one scenario in four also hands the senders forged ack frames whose packet window base names packets that
+        // have not been sent yet (mostly the very next ones)
+        (scenario_strategy(&p), proptest::option::weighted(0.25, proptest::collection::vec((any::<u16>(), 0u8..2, prop_oneof![5 => Just(1u16), 3 => 2u16..4, 1 => 4u16..3000]), 1..12)))
+            .prop_map(|(mut sc, pre)| {
+                if let Some(pre) = pre {
+                    sc.premature_acks = pre;
+                }
+                sc
+            })
+            .boxed()
     }
 
     fn extra(&self, tier: Tier, seed: u64) -> ExtraResult {
@@ -43,7 +52,7 @@ impl Check for C20 {
     }
 
     fn rule(&self) -> String {
-        "case = SimPair scenario (all packets >= 4 bytes) with all modes and sizes, ack loss / delay, TimeSensitive drops, window and allocation stalls, followed by a fair phase. Model fed only by send() calls, by the sender's emitted data frames (which packet ids exist) and by the ack frames handed to the sender (accepted packet-window bases): with A = payload bytes of packets whose id an accepted base has passed, D = bytes of stale TimeSensitive submissions that were certainly discarded (a later submission has been emitted) and S = bytes of stale TimeSensitive submissions not yet emitted whose fate is not observable, submitted - A - D - S <= send_buffer_size() <= submitted - A - D at every snapshot (after every endpoint step and after every batch of sends / flushes), and exactly 0 at quiescence. Non-trivial = at least one TimeSensitive packet was discarded and at least one ack released two or more packets at once.".into()
+        "case = SimPair scenario (all packets >= 4 bytes) with all modes and sizes, ack loss / delay, TimeSensitive drops, window and allocation stalls, followed by a fair phase; one scenario in four also hands the senders forged ack frames without groups whose packet window base names a packet that has not been sent yet (1..3, rarely up to 3000, beyond the sender's next id - an acknowledgement of nothing, which must stay without effect also when that id comes into use). Model fed only by send() calls, by the sender's emitted data frames (which packet ids exist) and by the ack frames handed to the sender (accepted packet-window bases): with A = payload bytes of packets whose id an accepted base has passed, D = bytes of stale TimeSensitive submissions that were certainly discarded (a later submission has been emitted) and S = bytes of stale TimeSensitive submissions not yet emitted whose fate is not observable, submitted - A - D - S <= send_buffer_size() <= submitted - A - D at every snapshot (after every endpoint step and after every batch of sends / flushes), and exactly 0 at quiescence. Non-trivial = at least one TimeSensitive packet was discarded and at least one ack released two or more packets at once.".into()
     }
 
     fn assumptions(&self) -> Vec<String> {
@@ -70,6 +79,7 @@ impl Check for C20 {
             }
         };
         let end_sbs = [sim.hc[0].send_buffer_size(), sim.hc[1].send_buffer_size()];
+        let premature_injected = sim.premature_injected;
         let trace = sim.finish();
         let mut classes: Vec<&'static str> = Vec::new();
         let mut ts_dropped = false;
@@ -173,6 +183,9 @@ impl Check for C20 {
         }
         if ts_dropped {
             classes.push("ts_discarded");
+        }
+        if premature_injected > 0 {
+            classes.push("premature_packet_acks_injected");
         }
         if multi_release {
             classes.push("ack_released_several_packets");
